@@ -129,4 +129,285 @@ theorem emission_bound_needed :
     let gs : List GaugeRec := [⟨0,0,1⟩, ⟨0,1,1⟩, ⟨0,2,1⟩, ⟨0,3,1⟩, ⟨0,4,1⟩, ⟨0,5,1⟩]
     allocSum (6 * PREC) (totalCount gs) gs = 6 * PREC + 12 := by decide
 
+/-! ## weights_valid -/
+
+def sumRaw : List (Nat × Dec) → Int
+  | [] => 0
+  | x :: t => x.2.raw + sumRaw t
+
+/-- what the property says about one stored vote: every weight parses, is ≥ 0, and they sum to at most 1 -/
+def ValidWeights (ws : List PoolWeight) : Prop :=
+  ∃ pws, parseWeights ws = some pws ∧ (∀ x ∈ pws, 0 ≤ x.2.raw) ∧ sumRaw pws ≤ PREC
+
+theorem sumWeights_ok (ws : List PoolWeight) : ∀ (t0 tot : Dec), sumWeights ws t0 = .ok tot →
+    ∃ pws, parseWeights ws = some pws ∧ (∀ x ∈ pws, 0 ≤ x.2.raw) ∧ tot.raw = t0.raw + sumRaw pws := by
+  induction ws with
+  | nil =>
+    intro t0 tot h
+    simp only [sumWeights, Res.ok.injEq] at h
+    exact ⟨[], rfl, by simp, by simp [sumRaw, h]⟩
+  | cons pw t ih =>
+    intro t0 tot h
+    unfold sumWeights at h
+    cases hp : Dec.ofString? pw.weight with
+    | none => simp [hp] at h
+    | some w =>
+      simp only [hp] at h
+      by_cases hn : w.isNegative = true
+      · simp [hn] at h
+      · simp only [hn] at h
+        obtain ⟨pws, h1, h2, h3⟩ := ih _ _ h
+        refine ⟨(pw.pool, w) :: pws, by simp [parseWeights, hp, h1], ?_, ?_⟩
+        · intro x hx
+          rcases List.mem_cons.mp hx with rfl | hx
+          · simp only [Dec.isNegative, decide_eq_true_eq] at hn; simp only []; omega
+          · exact h2 x hx
+        · simp only [sumRaw, h3, Dec.add]; omega
+
+theorem voteGauge_ok {pools : List Nat} {votes vs : List Vote} {okS : Bool} {a : Addr} {ws : List PoolWeight}
+    (h : voteGauge pools votes okS a ws = .ok vs) : ValidWeights ws ∧ vs = setVote votes ⟨a, ws⟩ := by
+  unfold voteGauge at h
+  by_cases h0 : okS = true
+  · simp only [h0, Bool.not_true, Bool.false_eq_true, if_false] at h
+    cases hs : sumWeights ws Dec.zero with
+    | err e => simp [hs] at h
+    | panic k => simp [hs] at h
+    | ok tot =>
+      simp only [hs] at h
+      by_cases hg : tot.gt Dec.one = true
+      · simp [hg] at h
+      · simp only [hg, Bool.false_eq_true, if_false] at h
+        by_cases hp : allPoolsExist pools ws = true
+        · simp only [hp, Bool.not_true, Bool.false_eq_true, if_false, Res.ok.injEq] at h
+          obtain ⟨pws, h1, h2, h3⟩ := sumWeights_ok ws _ _ hs
+          refine ⟨⟨pws, h1, h2, ?_⟩, h.symm⟩
+          have hg' : ¬ (tot.raw > PREC) := by simpa [Dec.gt, Dec.one] using hg
+          have hz : Dec.zero.raw = 0 := rfl
+          rw [hz] at h3
+          omega
+        · simp [hp] at h
+  · simp [h0] at h
+
+theorem setVote_mem (vs : List Vote) (v x : Vote) (h : x ∈ setVote vs v) : x = v ∨ x ∈ vs := by
+  induction vs with
+  | nil => simp [setVote] at h; exact Or.inl h
+  | cons y t ih =>
+    unfold setVote at h
+    by_cases hy : y.sender = v.sender
+    · simp only [hy, if_true] at h
+      rcases List.mem_cons.mp h with h | h
+      · exact Or.inl h
+      · exact Or.inr (List.mem_cons_of_mem _ h)
+    · simp only [hy, if_false] at h
+      rcases List.mem_cons.mp h with h | h
+      · exact Or.inr (by rw [h]; exact List.mem_cons_self)
+      · rcases ih h with h | h
+        · exact Or.inl h
+        · exact Or.inr (List.mem_cons_of_mem _ h)
+
+theorem getVote_setVote_self (vs : List Vote) (v : Vote) : getVote (setVote vs v) v.sender = some v := by
+  induction vs with
+  | nil => simp [setVote, getVote, List.find?]
+  | cons y t ih =>
+    unfold setVote
+    by_cases hy : y.sender = v.sender
+    · simp [hy, getVote, List.find?]
+    · simp only [hy, if_false, getVote, List.find?, decide_false] at ih ⊢
+      exact ih
+
+theorem getVote_setVote_ne (vs : List Vote) (v : Vote) (a : Addr) (hne : v.sender ≠ a) :
+    getVote (setVote vs v) a = getVote vs a := by
+  induction vs with
+  | nil => simp [setVote, getVote, List.find?, hne]
+  | cons y t ih =>
+    unfold setVote
+    by_cases hy : y.sender = v.sender
+    · have : y.sender ≠ a := by rw [hy]; exact hne
+      simp [hy, getVote, List.find?, hne]
+    · simp only [hy, if_false, getVote, List.find?] at ih ⊢
+      by_cases hya : y.sender = a
+      · simp [hya]
+      · simp only [hya, decide_false]; exact ih
+
+/-! frame lemmas: which parts of the state a block touches -/
+
+theorem createEpoch_cases {s s' : St} {h : Int} {stk : Staking} {p n : Nat} (hc : createEpoch s h stk p n = .ok s') :
+    s' = s ∨ ∃ results : List (Nat × Int),
+      s' = { s with gauges := (results.map fun r => (⟨p, r.1, r.2⟩ : GaugeRec)).foldl setGauge s.gauges,
+                    epochs := setEpoch s.epochs ⟨n, h, h + s.epochBlocks, results.map fun r => (⟨p, r.1, r.2⟩ : GaugeRec)⟩ } := by
+  unfold createEpoch at hc
+  cases ht : tally stk s.votes with
+  | err e => simp [ht, Res.bind] at hc
+  | panic k => simp [ht, Res.bind] at hc
+  | ok results =>
+    simp only [ht, Res.bind] at hc
+    by_cases he : results.isEmpty = true
+    · simp only [he, if_true, Res.ok.injEq] at hc; exact Or.inl hc.symm
+    · simp only [he, Bool.false_eq_true, if_false, Res.ok.injEq] at hc
+      exact Or.inr ⟨results, hc.symm⟩
+
+theorem prune_votes (s : St) : (prune s).votes = s.votes ∧ (prune s).epochBlocks = s.epochBlocks := by
+  unfold prune
+  by_cases h : s.epochs.length > 2
+  · simp only [h, if_true]
+    cases s.epochs <;> simp
+  · simp [h]
+
+theorem endBlocker_votes {s s' : St} {h : Int} {stk : Staking} (he : endBlocker s h stk = .ok s') :
+    s'.votes = s.votes := by
+  unfold endBlocker at he
+  cases hl : lastEpoch s.epochs with
+  | none =>
+    simp only [hl] at he
+    cases hc : createEpoch s h stk 0 1 with
+    | ok s1 =>
+      simp only [hc, Res.ok.injEq] at he
+      subst he
+      rcases createEpoch_cases hc with h1 | ⟨r, h1⟩ <;> rw [h1]
+    | err e => simp only [hc, Res.ok.injEq] at he; rw [← he]
+    | panic k => simp [hc] at he
+  | some e =>
+    simp only [hl] at he
+    by_cases hh : h ≥ e.endBlock
+    · simp only [hh, if_true] at he
+      cases hc : createEpoch s h stk e.id (e.id + 1) with
+      | ok s1 =>
+        simp only [hc, Res.ok.injEq] at he
+        subst he
+        rw [(prune_votes s1).1]
+        rcases createEpoch_cases hc with h1 | ⟨r, h1⟩ <;> rw [h1]
+      | err e => simp only [hc, Res.ok.injEq] at he; rw [← he]
+      | panic k => simp [hc] at he
+    · simp only [hh, if_false, Res.ok.injEq] at he; rw [← he]
+
+theorem beginBlocker_frame (s : St) (oks : List Bool) :
+    (beginBlocker s oks).1.votes = s.votes ∧ (beginBlocker s oks).1.epochs = s.epochs ∧
+    (beginBlocker s oks).1.gauges = s.gauges ∧ (beginBlocker s oks).1.halted = s.halted := by
+  unfold beginBlocker
+  cases lastEpoch s.epochs with
+  | none => (refine ⟨?_, ?_, ?_, ?_⟩ <;> first | rfl | trivial)
+  | some e =>
+    simp only []
+    by_cases ht : totalCount e.gauges = 0
+    · simp only [ht, if_true]; (refine ⟨?_, ?_, ?_, ?_⟩ <;> first | rfl | trivial)
+    · simp only [ht, if_false]
+      cases allocLoop (s.bank.bal feeCollector bond) (totalCount e.gauges) e.gauges oks s.bank [] with
+      | mk b o => (refine ⟨?_, ?_, ?_, ?_⟩ <;> first | rfl | trivial)
+
+/-- shape of a block step: the state after BeginBlocker differs from `s` only in the bank; then EndBlocker -/
+theorem step_block_cases (s : St) (h fc : Int) (oks : List Bool) (stk : Staking) :
+    (step s (.block h fc oks stk)).1 = s ∨
+    ∃ s1 : St, (s1.votes = s.votes ∧ s1.epochs = s.epochs ∧ s1.gauges = s.gauges) ∧
+      ((∃ s2, endBlocker s1 h stk = .ok s2 ∧ (step s (.block h fc oks stk)).1 = s2) ∨
+       (step s (.block h fc oks stk)).1 = s1 ∨ (step s (.block h fc oks stk)).1 = { s1 with halted := true }) := by
+  have hb := beginBlocker_frame { s with bank := setFc s.bank fc } oks
+  simp only [step]
+  generalize beginBlocker { s with bank := setFc s.bank fc } oks = bb at hb ⊢
+  by_cases hh : s.halted = true
+  · simp [hh]
+  · simp only [hh, Bool.false_eq_true, if_false]
+    right
+    refine ⟨bb.1, ⟨hb.1, hb.2.1, hb.2.2.1⟩, ?_⟩
+    cases he : endBlocker bb.1 h stk with
+    | ok s2 => exact Or.inl ⟨s2, rfl, rfl⟩
+    | err e => exact Or.inr (Or.inl rfl)
+    | panic k => exact Or.inr (Or.inr rfl)
+
+theorem step_block_votes (s : St) (h fc : Int) (oks : List Bool) (stk : Staking) :
+    (step s (.block h fc oks stk)).1.votes = s.votes := by
+  rcases step_block_cases s h fc oks stk with h0 | ⟨s1, ⟨hv, _, _⟩, h1 | h1 | h1⟩
+  · rw [h0]
+  · obtain ⟨s2, he, h2⟩ := h1
+    rw [h2, endBlocker_votes he, hv]
+  · rw [h1, hv]
+  · rw [h1]; exact hv
+
+/-- the invariant of `weights_valid` -/
+def VotesValid (s : St) : Prop := ∀ v ∈ s.votes, ValidWeights v.weights
+
+/-- states reachable from an empty module state (any epoch length) by any operation sequence -/
+inductive Reachable : St → Prop
+  | init (eb : Int) : Reachable { epochBlocks := eb }
+  | step {s : St} (op : Op) : Reachable s → Reachable (step s op).1
+
+theorem step_votesValid (s : St) (op : Op) (hs : VotesValid s) : VotesValid (step s op).1 := by
+  cases op with
+  | addPool id => exact hs
+  | vote a okS ws =>
+    simp only [step]
+    cases hv : voteGauge s.pools s.votes okS a ws with
+    | ok vs =>
+      simp only []
+      obtain ⟨hw, rfl⟩ := voteGauge_ok hv
+      intro v hvm
+      rcases setVote_mem _ _ _ hvm with rfl | hm
+      · exact hw
+      · exact hs v hm
+    | err e => exact hs
+    | panic k => exact hs
+  | block h fc oks stk =>
+    intro v hv
+    rw [step_block_votes] at hv
+    exact hs v hv
+
+/-- weights_valid: in every reachable state every stored vote has weights that parse, are non-negative and sum
+    to at most one -/
+theorem weights_valid {s : St} (hr : Reachable s) : VotesValid s := by
+  induction hr with
+  | init eb => intro v hv; simp at hv
+  | step op _ ih => exact step_votesValid _ op ih
+
+/-- votes persist until replaced: no operation other than an ACCEPTED `VoteGauge` of the same sender changes the
+    sender's stored vote (blocks, pool creation, other senders' votes, rejected votes) -/
+theorem votes_persist (s : St) (op : Op) (a : Addr)
+    (hop : ∀ okS ws, op = .vote a okS ws → (step s op).2 ≠ .vote "ok") :
+    getVote (step s op).1.votes a = getVote s.votes a := by
+  cases op with
+  | addPool id => rfl
+  | block h fc oks stk => rw [step_block_votes]
+  | vote b okS ws =>
+    have hop' := hop okS ws
+    simp only [step] at hop' ⊢
+    cases hv : voteGauge s.pools s.votes okS b ws with
+    | ok vs =>
+      simp only [hv] at hop' ⊢
+      obtain ⟨_, rfl⟩ := voteGauge_ok hv
+      by_cases hba : b = a
+      · subst hba; exact absurd rfl (hop' rfl)
+      · exact getVote_setVote_ne _ _ _ hba
+    | err e => rfl
+    | panic k => rfl
+
+/-- an accepted vote replaces the sender's previous vote -/
+theorem vote_replaces (s : St) (a : Addr) (okS : Bool) (ws : List PoolWeight)
+    (h : (step s (.vote a okS ws)).2 = .vote "ok") :
+    getVote (step s (.vote a okS ws)).1.votes a = some ⟨a, ws⟩ ∧ ValidWeights ws := by
+  simp only [step] at h ⊢
+  cases hv : voteGauge s.pools s.votes okS a ws with
+  | ok vs =>
+    simp only []
+    obtain ⟨hw, rfl⟩ := voteGauge_ok hv
+    exact ⟨getVote_setVote_self _ _, hw⟩
+  | err e => simp [hv] at h
+  | panic k => simp [hv] at h
+
+/-- non-vacuity (String parsing does not reduce in the kernel, so the parse of "0.5" is a hypothesis here; the
+    driver executes it for real on every run): a two-pool vote 0.5/0.5 is valid, is accepted into the store of a
+    reachable state, and a vote summing to 1.000000000000000001 is rejected -/
+example (h5 : Dec.ofString? "0.5" = some ⟨HALF⟩) : ValidWeights [⟨0, "0.5"⟩, ⟨1, "0.5"⟩] :=
+  ⟨[(0, ⟨HALF⟩), (1, ⟨HALF⟩)], by simp [parseWeights, h5], by decide, by decide⟩
+example (h5 : Dec.ofString? "0.5" = some ⟨HALF⟩) :
+    voteGauge [0, 1] [] true "a1" [⟨0, "0.5"⟩, ⟨1, "0.5"⟩] = .ok [⟨"a1", [⟨0, "0.5"⟩, ⟨1, "0.5"⟩]⟩] := by
+  have a : ¬ HALF < 0 := by decide
+  have b : HALF + HALF = PREC := by decide
+  simp [voteGauge, sumWeights, h5, allPoolsExist, setVote, Dec.isNegative, Dec.gt, Dec.add, Dec.zero, Dec.one, a, b]
+example (h5 : Dec.ofString? "0.5" = some ⟨HALF⟩) (h6 : Dec.ofString? "0.500000000000000001" = some ⟨HALF + 1⟩) :
+    (voteGauge [0, 1] [] true "a1" [⟨0, "0.5"⟩, ⟨1, "0.500000000000000001"⟩]).isOk = false := by
+  have a : ¬ HALF < 0 := by decide
+  have a' : ¬ HALF + 1 < 0 := by decide
+  have b : PREC < HALF + (HALF + 1) := by decide
+  simp [voteGauge, sumWeights, h5, h6, Dec.isNegative, Dec.gt, Dec.add, Dec.zero, Dec.one, Res.isOk, a, a', b]
+example : Reachable (run { epochBlocks := 3 } [.addPool 0, .addPool 1]) :=
+  Reachable.step _ (Reachable.step _ (Reachable.init 3))
+
 end Sunrise.C17
